@@ -1,5 +1,7 @@
 package tally
 
+// quick-tier: yes (deterministic, sequential, no I/O, < 2 s)
+//
 // Bounded replay / fall-back driver for property C04 (injected with go test -overlay).
 // Small-scope enumeration of derivation programs (SubScope / Tagged chains of depth
 // 0..3) over roots with different prefixes, separators and tags; the maps handed to
@@ -187,6 +189,80 @@ func TestVerifDriverC04(t *testing.T) {
 			}
 			if found != 1 {
 				fail("program %+v on root %+v: %d deliveries of the counter, want 1", prog, rc, found)
+			}
+		}
+	}
+	// second family: a sanitizer that rewrites keys/values/names; later values win
+	// also when the later key only equals an inherited one AFTER sanitizing
+	san := func(x string) string {
+		b := []byte(x)
+		for i, c := range b {
+			if !(c >= 'a' && c <= 'z' || c >= 'A' && c <= 'Z' || c >= '0' && c <= '9' || c == '_') {
+				b[i] = '_'
+			}
+		}
+		return string(b)
+	}
+	sopts := SanitizeOptions{
+		NameCharacters:       ValidCharacters{Ranges: AlphanumericRange, Characters: UnderscoreCharacters},
+		KeyCharacters:        ValidCharacters{Ranges: AlphanumericRange, Characters: UnderscoreCharacters},
+		ValueCharacters:      ValidCharacters{Ranges: AlphanumericRange, Characters: UnderscoreCharacters},
+		ReplacementCharacter: DefaultReplacementCharacter,
+	}
+	sTagSets := []map[string]string{{"dc-name": "west"}, {"dc_name": "east"}, {"dc.name": "no.rth", "k": "1"}, {"k": "2"}}
+	var sOps []vdC04Op
+	sOps = append(sOps, vdC04Op{sub: true, name: "b.c"})
+	for _, ts := range sTagSets {
+		sOps = append(sOps, vdC04Op{tags: ts})
+	}
+	var sProgs [][]vdC04Op
+	for _, a := range sOps {
+		sProgs = append(sProgs, []vdC04Op{a})
+		for _, b := range sOps {
+			sProgs = append(sProgs, []vdC04Op{a, b})
+			for _, c := range sOps {
+				sProgs = append(sProgs, []vdC04Op{a, b, c})
+			}
+		}
+	}
+	for _, rootTags := range []map[string]string{nil, {"dc_name": "root"}, {"env-kind": "prod"}} {
+		for _, prog := range sProgs {
+			runs++
+			rep := &vdC04Reporter{}
+			root, closer := NewRootScope(ScopeOptions{Prefix: "svc", Separator: "_", Tags: vdC04Copy(rootTags), Reporter: rep, OmitCardinalityMetrics: true, SanitizeOptions: &sopts}, 0)
+			wantPrefix := "svc"
+			wantTags := map[string]string{}
+			for k, v := range rootTags {
+				wantTags[san(k)] = san(v)
+			}
+			s := root
+			for _, op := range prog {
+				if op.sub {
+					s = s.SubScope(op.name)
+					wantPrefix = wantPrefix + "_" + san(op.name)
+				} else {
+					s = s.Tagged(vdC04Copy(op.tags))
+					for k, v := range op.tags {
+						wantTags[san(k)] = san(v)
+					}
+				}
+			}
+			s.Counter("c").Inc(1)
+			closer.Close()
+			found := 0
+			for _, c := range rep.counters {
+				if c.v == 1 {
+					found++
+					if c.name != wantPrefix+"_c" {
+						fail("sanitizer: program %+v root tags %v: delivered name %q, want %q", prog, rootTags, c.name, wantPrefix+"_c")
+					}
+					if vdC04Fmt(c.tags) != vdC04Fmt(wantTags) {
+						fail("sanitizer: program %+v root tags %v: delivered tags %s, want %s", prog, rootTags, vdC04Fmt(c.tags), vdC04Fmt(wantTags))
+					}
+				}
+			}
+			if found != 1 {
+				fail("sanitizer: program %+v root tags %v: %d deliveries of the counter, want 1", prog, rootTags, found)
 			}
 		}
 	}
